@@ -775,9 +775,10 @@ def parse_instr(mod, st):
             idx.append(int(p.next()[1]))
         return Instr('insertvalue', res, v.ty, [v, e], idx=idx)
     if op == 'fence':
+        scope = None
         if p.peek()[1] == 'syncscope':
-            p.next(); p.expect('('); p.next(); p.expect(')')
-        return Instr('fence', None, VoidT(), [], order=p.next()[1])
+            p.next(); p.expect('('); scope = unq(p.next()[1]); p.expect(')')
+        return Instr('fence', None, VoidT(), [], order=p.next()[1], scope=scope)
     if op == 'atomicrmw':
         p.accept('volatile')
         rop = p.next()[1]
